@@ -564,7 +564,10 @@ def ema_grouped(
         if alpha is not None:
             raise ValueError("only one of alpha or halflife should be provided")
 
-        halflife = _halflife_to_int(halflife)
+        if times is not None or isinstance(halflife, (str, pd.Timedelta)):
+            halflife = _halflife_to_int(halflife)
+        elif halflife <= 0:
+            raise ValueError("Halflife must be positive.")
         alpha = 1 - np.exp(-np.log(2) / halflife)
 
     nb_kwargs = dict(
